@@ -268,11 +268,8 @@ def run(ctx, build):
 
 
 def model_correspondence(ctx):
-    """differential runs of the extracted Coq model of name handling against the real FatDirectory"""
-    import fat_names_corr
-    lib.corr_run(ctx, fat_names_corr)
-    SPEC['theorems'].update(getattr(fat_names_corr, 'SPEC_THEOREMS', {}))
-    SPEC['trusted_base'].extend(x for x in getattr(fat_names_corr, 'TRUSTED', []) if x not in SPEC['trusted_base'])
+    """differential runs of the extracted Coq models of this property's cores against the real classes"""
+    lib.corr_modules(ctx, SPEC, ['fat_names_corr', 'fat_dir_corr'])
 
 
 def replay(ctx, obj):
